@@ -531,3 +531,43 @@ def iso_check(seed, tier, wd):
         raise run.ToolError("E2eTrace failed:\n" + out[-2000:])
     viol = [(runno, text, recs[runno - 1]) for runno, text in run.tagged(out, "E2EVIOL")]
     return {"runs": len(recs), "violations": viol}
+
+
+def burst_check(seed, tier, wd):
+    """C06 on the real binary: a payment of many parts; every htlc_accepted call of the set is answered exactly once
+    (resolve() answers the whole set in the same instant, the driver has to get every reply out)."""
+    build()
+    T = templates()
+    recs = []
+    for runno, nparts in enumerate((3, 7, 12, 24), 1):
+        pl = Plugin(options={OPT[k]: v for k, v in dict(DEFAULTS, mpp=5).items()}, height=1000)
+        pl.node.node_id = T["local"]
+        try:
+            pl.node.pay_mode = "complete:" + T["preimages"][0]
+            if pl.handshake() != "ok":
+                raise run.ToolError("real binary did not start for the burst scenario")
+            A = T["A"]; need = A + A * 5000 // 10**6
+            share = need // nparts
+            ids = []
+            for k in range(nparts):
+                amt = share if k < nparts - 1 else need - share * (nparts - 1)
+                rid = "p%d" % k
+                ids.append(rid)
+                pl.send(patched(T["ok"], rid, k + 1, amt, need, 1000 + 34 + 1008 + 500, 70000))
+            fr = pl.read_frames(lambda f: sum(1 for ok, o in f if ok and o.get("id") in ids) >= len(ids), 5.0)
+            recs.append({"ev": "e2e", "run": runno, "sent": [json.dumps(i) for i in ids], "leftover": pl.leftover(),
+                         "frames": [{"json": ok, "id": json.dumps(o.get("id")) if ok and "id" in o else "none",
+                                     "kind": ("result" if ok and "result" in o else "error" if ok and "error" in o else "notification" if ok and "method" in o else "garbage"),
+                                     "result": (o.get("result", {}).get("result", "") if ok and isinstance(o.get("result"), dict) else "")}
+                                    for ok, o in fr if not (ok and o.get("method") == "log")]})
+        finally:
+            pl.close()
+    tf = wd + "/e2e_burst.ndjson"
+    with open(tf, "w") as f:
+        for l in recs:
+            f.write(json.dumps(l) + "\n")
+    rc, out = run.tlc_trace("E2eTrace.tla", "E2eTrace.cfg", tf, wd + "/e2eb")
+    if "No error has been found" not in out:
+        raise run.ToolError("E2eTrace failed:\n" + out[-2000:])
+    viol = [(runno, text, recs[runno - 1]) for runno, text in run.tagged(out, "E2EVIOL")]
+    return {"runs": len(recs), "violations": viol}
